@@ -5,5 +5,5 @@ CONSTANTS
   FullUntil = 1969
 INIT Init
 NEXT Next
-INVARIANTS TypeOK JumpAgrees AlgoAgrees GenMonthByJumps
+INVARIANTS TypeOK JumpAgrees YearAgrees AlgoAgrees GenMonthByJumps
 CHECK_DEADLOCK FALSE
